@@ -239,6 +239,69 @@ def r18d(ctx, rep, rule="R18d"):
             rep.ok(rule, key, "the decoder's escape introducer %r is escaped by the encoder" % chr(i), [ii.span])
 
 
+def r11j(ctx, rep, rule="R11j"):
+    """a token that runs "up to a delimiter" stops at every token-starting character"""
+    from .. import shapes
+    facts = ctx["facts"]
+    rep.rule(rule, "a scanner loop that ends a token when a character-class predicate becomes true (the `up to the next delimiter` "
+             "form) absorbs every character the predicate does not name; the predicate must therefore name every character on "
+             "which lex::scan starts a bracket, quote, hash or string token — this lexer's bracket spellings [ ] { } included. "
+             "Otherwise a bracket written directly after such a token disappears from the token stream. (Loops that continue "
+             "while a class predicate holds are covered by R11f; strings and comments end on a single character.)")
+    scan = need(rep, rule, facts, "marwood::lex::scan")
+    if scan is None:
+        return
+    starters = {}
+    for bb, arms, other, t in char_switches(scan):
+        for v, tg in arms.items():
+            calls, _ = arm_effects(scan, tg, stop={other}, limit=3)
+            if calls and calls[0] in ("marwood::lex::scan_simple_token", "marwood::lex::scan_hash_token", "marwood::lex::scan_string"):
+                starters[v] = calls[0].rsplit("::", 1)[-1]
+    rep.floor(rule, "token-starting characters in lex::scan's dispatch", len(starters), 11)
+    n = 0
+    for p, f in sorted(facts.fns.items()):
+        if not p.startswith("marwood::lex::") or "::tests::" in p or "{closure" in p:
+            continue
+        for src, h in f.back_edges():
+            body = (f.reach_from(h) & f.reach_back(src)) | {h, src}
+            for bb in sorted(body):
+                t = f.blocks[bb]["term"]
+                if t["k"] != "switch" or t.get("opty") != "bool":
+                    continue
+                o = f.origin(t["op"])
+                if o[0] != "call":
+                    continue
+                c = callee(o[1]) or ""
+                if not o[1]["args"] or "Peekable" not in shapes.shape(f, o[1]["args"][0], 4):
+                    continue
+                true_t = t["otherwise"]
+                if true_t in body:
+                    continue            # positive form: the loop continues while the predicate holds
+                n += 1
+                key = "%s|%s|ends-on:%s" % (rule, f.short, short_path(c).rsplit("::", 1)[-1])
+                g = facts.fns.get(c)
+                named = set()
+                if g is not None and c.startswith("marwood::lex::"):
+                    for b2, j2, st in g.stmts():
+                        rv = st["rv"]
+                        if rv["k"] == "bin" and rv["op"] == "Eq":
+                            for x in (rv["a"], rv["b"]):
+                                cc = op_const(x)
+                                if cc is not None and cc.get("ty") == "char" and "int" in cc:
+                                    named.add(cc["int"])
+                missing = sorted(v for v in starters if v not in named)
+                if missing:
+                    rep.fail(rule, key, "%s ends its token when %s becomes true, and %s does not name %s: a token of that kind absorbs "
+                             "those characters, so e.g. a `]` written directly after it is not a bracket token any more" % (
+                                 f.short, short_path(c), short_path(c), " ".join(repr(chr(v)) for v in missing)), [t.get("loc") or f.span])
+                else:
+                    rep.ok(rule, key, "%s ends its token on %s, which names every token-starting character" % (f.short, short_path(c)),
+                           [t.get("loc") or f.span])
+    if n == 0:
+        rep.ok(rule, rule + "|none", "no scanner loop ends a token on a class predicate becoming true (all continue while a class holds)",
+               [scan.span], nontrivial=False)
+
+
 def r11f(ctx, rep, rule="R11f"):
     facts = ctx["facts"]
     rep.rule(rule, "characters that start a bracket, quote, hash or string token never continue an identifier: the characters "
